@@ -444,6 +444,8 @@ pub fn parse_choice_text(input: &str) -> Result<ParsedChoiceText, CompilerError>
         // Append closing punctuation from `end` to choice_only_text only when the
         // `end` segment is plain text that starts with closing punctuation (like `."` or `,'`).
         // Do NOT pull chars from an expression like `{foo}`.
+        // Do NOT repeat a closing quote that the bracketed part already supplies
+        // (`"I am tired[."]," I said.` is offered as `"I am tired."`).
         let display_suffix: String = if !end.trim_start().starts_with('{') {
             end_text
                 .chars()
@@ -452,6 +454,11 @@ pub fn parse_choice_text(input: &str) -> Result<ParsedChoiceText, CompilerError>
                 .collect()
         } else {
             String::new()
+        };
+        let display_suffix = if choice_only_text.ends_with(&display_suffix) {
+            String::new()
+        } else {
+            display_suffix
         };
         let choice_only_text = format!("{choice_only_text}{display_suffix}");
         let display = format!("{start_text}{choice_only_text}");
